@@ -65,7 +65,7 @@ func genC11(t *rapid.T) E1Case {
 	closer := E1Task{Role: "closer"}
 	switch source {
 	case "user":
-		closer.Ops = []E1Op{{Op: "close", Err: rapid.SampledFrom([]string{"nil", "nil", "sentinel", "wrapped", "eof", "neterr"}).Draw(t, "cerr")}}
+		closer.Ops = []E1Op{{Op: "close", Err: rapid.SampledFrom(closeErrKinds).Draw(t, "cerr")}}
 	case "parentcancel":
 		closer.Ops = []E1Op{{Op: "cancelparent"}, {Op: "feed", N: 3}}
 	case "peereof":
@@ -73,7 +73,7 @@ func genC11(t *rapid.T) E1Case {
 	case "readfail":
 		closer.Ops = []E1Op{{Op: "failread", Err: rapid.SampledFrom([]string{"plain", "neterr"}).Draw(t, "rerr")}}
 	case "senderfail":
-		c.Faults = []mock.Fault{{Op: "writev", K: 1, Err: rapid.SampledFrom([]string{"plain", "neterr", "timeout"}).Draw(t, "ferr")}}
+		c.Faults = []mock.Fault{{Op: "wr", K: 1, Err: rapid.SampledFrom([]string{"plain", "neterr", "timeout"}).Draw(t, "ferr")}}
 		closer.Ops = []E1Op{{Op: "feed", N: 1}}
 	}
 	c.Tasks = append(c.Tasks, closer)
@@ -108,7 +108,7 @@ func genC11(t *rapid.T) E1Case {
 		}
 		c.Tasks = append(c.Tasks, ov)
 	}
-	c.Futile = rapid.SampledFrom([]int{0, 0, 1}).Draw(t, "futile")
+	c.Futile = drawFutile(t, []int{0, 0, 1})
 	c.Schedule = genSchedule(t, 100)
 	return c
 }
